@@ -134,8 +134,7 @@ elab "esplit1" : tactic => withMainContext do
   let t ← instantiateMVars (← g.getType)
   let isTarget (e : Expr) : Bool :=
     !e.hasLooseBVars &&
-      (e.isAppOfArity ``CircBuf.addMod 3 || e.isAppOfArity ``CircBuf.subMod 3 || e.isAppOfArity ``CircBuf.uadd 2 ||
-       e.isAppOfArity ``CircBuf.usub 2 || e.isAppOfArity ``CircBuf.umul 2 || e.isAppOfArity ``CircBuf.umod 2 ||
+      (e.isAppOfArity ``CircBuf.addMod 3 || e.isAppOfArity ``CircBuf.subMod 3 ||
        e.isAppOfArity ``CircBuf.CB.items 2)
   let some e := t.find? isTarget | throwError "esplit1: nothing to split on"
   let (xs, g1) ← g.generalize #[{ expr := e }]
@@ -158,12 +157,12 @@ macro_rules
        pure_bind_run, raise_bind, ite_bind, ite_run, dassert_run, getBuf_run, setBuf_run,
        pure_run, raise_run, amod, smod, setStart, setSize, setItems, checkIdx_bind, checkIdx_run',
        readInit_bind, readInit_run', writeCell_bind, writeCell_run', checkRange, View.sub, View.splitAt, View.all, View.empty, checkedSub,
-       View.slots, Nat.zero_add, Nat.add_zero, Nat.sub_zero, range'_zero_len, dropInPlace_nil, Nat.zero_le, true_and]
+       uadd, usub, umul, umod, View.slots, Nat.zero_add, Nat.add_zero, Nat.sub_zero, range'_zero_len, dropInPlace_nil, Nat.zero_le, true_and]
      <;> (try simp only [liftE_bind, liftE_run, bind_assoc_run, dassert_bind, getBuf_bind, setBuf_bind,
        pure_bind_run, raise_bind, ite_bind, ite_run, dassert_run, getBuf_run, setBuf_run, pure_run, raise_run,
        checkIdx_bind, checkIdx_run', readInit_bind, readInit_run', writeCell_bind, writeCell_run',
        decide_eq_true_eq, Nat.not_lt, Nat.not_le, range'_zero_len, dropInPlace_nil])
-     <;> (repeat' (first | rfl | ifsplit1 | esplit1 | split)) <;> (try subst_vars) <;> (try simp_all) <;> (try omega)))
+     <;> (repeat' (first | rfl | ifsplit1 | esplit1 | (simp only [bind_assoc_run, ite_bind, ite_run, raise_bind, pure_bind_run, pure_run, raise_run, dassert_bind, dassert_run, getBuf_bind, getBuf_run, setBuf_bind, setBuf_run, liftE_bind, liftE_run]) | split)) <;> (try subst_vars) <;> (try simp_all) <;> (try omega)))
 
 
 /-- the same with Lean's own `split` only -/
@@ -176,7 +175,7 @@ macro_rules
        pure_bind_run, raise_bind, ite_bind, ite_run, dassert_run, getBuf_run, setBuf_run,
        pure_run, raise_run, amod, smod, setStart, setSize, setItems, checkIdx_bind, checkIdx_run',
        readInit_bind, readInit_run', writeCell_bind, writeCell_run', checkRange, View.sub, View.splitAt, View.all, View.empty, checkedSub,
-       View.slots, Nat.zero_add, Nat.add_zero, Nat.sub_zero, range'_zero_len, dropInPlace_nil, Nat.zero_le, true_and]
+       uadd, usub, umul, umod, View.slots, Nat.zero_add, Nat.add_zero, Nat.sub_zero, range'_zero_len, dropInPlace_nil, Nat.zero_le, true_and]
      <;> (try simp only [liftE_bind, liftE_run, bind_assoc_run, dassert_bind, getBuf_bind, setBuf_bind,
        pure_bind_run, raise_bind, ite_bind, ite_run, dassert_run, getBuf_run, setBuf_run, pure_run, raise_run,
        checkIdx_bind, checkIdx_run', readInit_bind, readInit_run', writeCell_bind, writeCell_run',
@@ -219,14 +218,14 @@ macro_rules
        pure_bind_run, raise_bind, ite_bind, ite_run, dassert_run, getBuf_run, setBuf_run,
        pure_run, raise_run, amod, smod, setStart, setSize, setItems, checkIdx_bind, checkIdx_run',
        readInit_bind, readInit_run', writeCell_bind, writeCell_run', checkRange, View.sub, View.splitAt, View.all, View.empty, checkedSub,
-       View.slots, Nat.zero_add, Nat.add_zero, Nat.sub_zero, range'_zero_len, dropInPlace_nil, Nat.zero_le, true_and]
+       uadd, usub, umul, umod, View.slots, Nat.zero_add, Nat.add_zero, Nat.sub_zero, range'_zero_len, dropInPlace_nil, Nat.zero_le, true_and]
      try simp only [liftE_bind, liftE_run, bind_assoc_run, dassert_bind, getBuf_bind, setBuf_bind,
        pure_bind_run, raise_bind, ite_bind, ite_run, dassert_run, getBuf_run, setBuf_run, pure_run, raise_run,
        checkIdx_bind, checkIdx_run', readInit_bind, readInit_run', writeCell_bind, writeCell_run',
        decide_eq_true_eq, Nat.not_lt, Nat.not_le, range'_zero_len, dropInPlace_nil]
      try simp (disch := omega) only [addMod_ite, subMod_ite, uadd_ok', usub_ok', decide_eq_true_eq, if_pos,
        if_neg, Nat.mod_lt, gt_iff_lt, ge_iff_le, Nat.add_sub_cancel]
-     all_goals (repeat' (first | rfl | ifsplit1 | esplit1 | split))
+     all_goals (repeat' (first | rfl | ifsplit1 | esplit1 | (simp only [bind_assoc_run, ite_bind, ite_run, raise_bind, pure_bind_run, pure_run, raise_run, dassert_bind, dassert_run, getBuf_bind, getBuf_run, setBuf_bind, setBuf_run, liftE_bind, liftE_run]) | split))
      all_goals (try subst_vars)
      all_goals (try simp (disch := omega) only [addMod_ite, subMod_ite, uadd_ok', usub_ok', decide_eq_true_eq, if_pos,
        if_neg, Nat.mod_lt, gt_iff_lt, ge_iff_le, Nat.add_sub_cancel] at *)
